@@ -598,7 +598,10 @@ def check_search(res, facts, prop):
         # the scan is reached through the public entry point: a freshly constructed quantizer cannot take the
         # hysteresis early return (R-HYST), so convert(v) is exactly the memoryless search for v in [0, V_MAX]
         q = qz.quantizer(it, st, cached='fresh')
-        v = float_sym(st, 'v', 0, qz.VMAX)
+        # every real input: the clamp in front of the search is part of what is analysed (without it a large input
+        # overflows the u8 note number and lands on a forbidden pitch class)
+        # (C08 is stated for the clamped input and builds its reference `vin` from v directly; the clamp itself is R-HYST's)
+        v = float_sym(st, 'v', 0, qz.VMAX) if prop == 'C08' else float_sym(st, 'v', -INF, INF)
         run = SearchRun(qz, *modes)
         it.loop_hook = run.hook
         try:
